@@ -66,6 +66,9 @@ def _check(prog, rep):
     D = lambda t: describe(t, body)[:150]
     r1 = Rule(rep, "C02.R1", SLOW, site=site_of_block(body, m.wrap_block))
     r2 = Rule(rep, "C02.R2", SLOW, site=site_of_block(body, m.wrap_block))
+    r1.check(not m.stray_pushes, "only-loop-pushes", "every line of the slow path comes out of the measured arrangement",
+             "no push outside the reassembly loop", "wrap_single_line_slow_path also adds a line outside its reassembly loop (%s): "
+             "that line was never measured against the width" % [nm for _b, nm in m.stray_pushes])
     wl = s.call_args(m.wrap_block)[2]        # unsimplified: may contain phis
     wl_s = prog.simp(wl, body)
     if wl_s[0] not in ("tuple", "array") or len(wl_s[1]) != 2:
